@@ -4,17 +4,20 @@
 set -u
 P="$1"; PKG="$2"; shift 2; CHECKS="${*:-$P}"
 cd /verif
+# round 2: SRC=/tmp/seed2_$P and the two changes are stored as -C / -D
+SRC="${SRC:-/tmp/seed_$P}"; R2="${R2:-}"
+name() { if [ -n "$R2" ]; then case $1 in A) echo C;; B) echo D;; esac; else echo $1; fi; }
 for X in A B; do
-  [ -f /tmp/seed_$P/out/patch$X.diff ] || continue
-  D=seeded/$P-$X; mkdir -p $D
-  cp /tmp/seed_$P/out/patch$X.diff $D/patch.diff
-  cp /tmp/seed_$P/out/demo${X}_test.go $D/demo_test.go
-  cp /tmp/seed_$P/out/notes$X.md $D/notes.md 2>/dev/null
+  [ -f $SRC/out/patch$X.diff ] || continue
+  D=seeded/$P-$(name $X); mkdir -p $D
+  cp $SRC/out/patch$X.diff $D/patch.diff
+  cp $SRC/out/demo${X}_test.go $D/demo_test.go
+  cp $SRC/out/notes$X.md $D/notes.md 2>/dev/null
   (tools/confirm_seed.sh $D $PKG suite > $D/confirm.log 2>&1 &)
 done
-git -C /repo worktree remove --force /tmp/seed_$P 2>/dev/null
+git -C /repo worktree remove --force $SRC 2>/dev/null
 for X in A B; do
-  D=seeded/$P-$X; [ -d $D ] || continue
+  D=seeded/$P-$(name $X); [ -d $D ] || continue
   echo "##### $D"
   VERIF_DIR=/tmp/vw_seedrun tools/run_seed_check.sh $D $CHECKS
 done
